@@ -245,7 +245,10 @@ func GenList(t *rapid.T, hostile bool) ListCase {
 }
 
 // OKList bounds replayed cases.
-func OKList(c ListCase) bool {
+func OKList(c ListCase) bool { return OKListBig(c, 4096) }
+
+// OKListBig is OKList with a caller-chosen bound on content size.
+func OKListBig(c ListCase, maxContent int) bool {
 	if len(c.Entries) > 60 || c.GoMod < -1 || c.GoMod >= len(GoModKinds) {
 		return false
 	}
@@ -255,7 +258,7 @@ func OKList(c ListCase) bool {
 		default:
 			return false
 		}
-		if len(e.Name) > 400 || len(e.Content) > 4096 {
+		if len(e.Name) > 400 || len(e.Content) > maxContent {
 			return false
 		}
 		for _, el := range strings.Split(e.Name, "/") {
